@@ -247,6 +247,15 @@ func (w *World) Step(tr *vutil.Trace, o AbsOp, amount string, gas string) *execd
 		if o.V == 2 && o.A != o.B { // two targets, one of them the sender itself
 			tgt[w.addr[o.A]] = types.TransferData{Balance: "0.5"}
 		}
+		if o.V == 3 || o.V == 4 { // the fee account among the targets: the flat fee has just been credited to
+			// the same balance slot, before the executor's snapshot; the targets are served in sorted key
+			// order, so for a target that sorts after the fee account a refused amount (V = 4: more than
+			// any balance) comes after the credit to the fee account and must undo it
+			tgt[common.FeeAccount.GetHexString()] = types.TransferData{Balance: "0.25"}
+			if o.V == 4 {
+				tgt[w.addr[o.B]] = types.TransferData{Balance: "1000000001"}
+			}
+		}
 		d, _ := json.Marshal(tgt)
 		tx = execdrv.NewTx(types.TransactionTypeOperatorEvent, src, "", "", string(d), w.seq, salt)
 	case "Deploy":
